@@ -120,8 +120,9 @@ Qed.
 (** static_dynamic_agree is not vacuous and its four reasons are each needed.  The served example
     has no run-time reason; then one request per reason, each accepted by validation, each a
     run-time error, each with exactly that reason. *)
-Example no_runtime_reason : runtime_reason Eex dtex defs_ex args_ex raw_ex = false.
-Proof. vm_compute; reflexivity. Qed.
+Example no_runtime_reason : runtime_reason Eex dtex defs_ex args_ex raw_ex = false /\
+  runtime_reason_precise Eex dtex argdefs_ex defs_ex args_ex raw_ex = false.
+Proof. split; vm_compute; reflexivity. Qed.
 
 Definition Er : env :=
   [ (nm "Int", TScalar KInt);
@@ -189,4 +190,14 @@ Example beyond_2_53 :
   scalar_variable all_fixed dtex KID (JNum d) = Some (GInt 9007199254740992) /\
   scalar_literal dtex KFloat (LInt z) = Some (GFloat d) /\
   scalar_variable all_fixed dtex KFloat (JNum d) = Some (GFloat d).
+Proof. cbv zeta. repeat split; vm_compute; reflexivity. Qed.
+
+(** the precise hook reason is strictly sharper: with a refusing hook somewhere in the schema (R) but
+    an argument of type Int, the coarse reason holds although nothing can fail *)
+Example precise_is_sharper :
+  let argdefs := [ (nm "x", {| in_type := StNamed (nm "Int"); in_default := None |}) ] in
+  let args := [ (nm "x", LInt 1) ] in
+  runtime_reason (Er) dtex [] args [] = true /\
+  runtime_reason_precise Er dtex argdefs [] args [] = false /\
+  hook_reached_args Er [ (nm "x", {| in_type := StNamed (nm "R"); in_default := None |}) ] [ (nm "x", LObject [ (nm "a", LInt 1) ]) ] = true.
 Proof. cbv zeta. repeat split; vm_compute; reflexivity. Qed.
